@@ -4995,6 +4995,11 @@ look_sysfscpukinds(struct hwloc_topology *topology,
  * sysfs CPU discovery
  */
 
+#ifdef HWLOC_VERIF
+/* verification hook (off unless built with -DHWLOC_VERIF): called when the CPU topology is about to be read from sysfs */
+void (*hwloc_verif_linuxcpu_cb)(struct hwloc_topology *topology, int root_fd, int old_filenames, int arch_s390, int is_amd_with_CU, int is_knl, int want_some_cpu_caches) = NULL;
+#endif
+
 static int
 look_sysfscpu(struct hwloc_topology *topology,
 	      struct hwloc_linux_backend_data_s *data,
@@ -5012,6 +5017,10 @@ look_sysfscpu(struct hwloc_topology *topology,
   const char *env;
 
   hwloc_debug("\n\n * Topology extraction from /sys/devices/system/cpu/ *\n\n");
+#ifdef HWLOC_VERIF
+  if (hwloc_verif_linuxcpu_cb)
+    hwloc_verif_linuxcpu_cb(topology, data->root_fd, old_filenames, data->arch == HWLOC_LINUX_ARCH_S390, data->is_amd_with_CU, data->is_knl, topology->want_some_cpu_caches);
+#endif
 
   /* try to get the list of online CPUs at once.
    * otherwise we'll use individual per-CPU "online" files.
